@@ -63,8 +63,8 @@ func randEnv(r *Rand) Env {
 		e.MapMode = 2
 	}
 	switch k := r.Intn(10); {
-	case k < 4:
-		e.Pool = simrt.PoolReal
+	case k < 2:
+		e.Pool = simrt.PoolFreshOnly
 	case k < 6:
 		e.Pool = simrt.PoolIsolating
 	case k < 8:
@@ -153,8 +153,8 @@ func (c16Engine) Exec(c *Case, job *Job) *Result {
 	for _, st := range c.History {
 		ref(st.Op)
 	}
-	simrt.PoolSimBegin(simrt.PoolConfig{Policy: simrt.PoolReal}, c.Seed)
-	defer func() { simrt.PoolSimEnd(); canonicalEnv() }()
+	simrt.PoolSimBegin(simrt.PoolConfig{Policy: simrt.PoolIsolating}, c.Seed)
+	defer canonicalEnv()
 	var ops []string
 	type stepLog struct {
 		Op     string `json:"op"`
